@@ -503,3 +503,139 @@ func runC20Thr(c c20ThrCase) *vlib.Outcome {
 func TestC20Throttle(t *testing.T) {
 	vlib.Check(t, "C20", genC20Thr, runC20Thr)
 }
+
+// ---------------------------------------------------------------------
+// capacity under concurrent adders
+//
+// 2-8 clients add facts and rules with distinct ids to one location at the
+// same time, around the capacity boundary (nothing is removed).  Whatever the
+// schedule: the location never holds more than its maximum, no more adds
+// succeed than there was room for, and a refused add leaves nothing behind.
+
+type c20ccCase struct {
+	Kind    string  `json:"kind"`
+	Max     int     `json:"max"`
+	Pre     int     `json:"pre"`     // facts stored beforehand
+	Clients [][]int `json:"clients"` // per client: 0 = AddFact, 1 = AddRule
+	Spin    []int   `json:"spin"`
+	Noise   int     `json:"noise,omitempty"`
+}
+
+func genC20cc(t *rapid.T) c20ccCase {
+	var c c20ccCase
+	c.Kind = rapid.SampledFrom([]string{"indexed", "linear"}).Draw(t, "kind")
+	c.Max = rapid.IntRange(1, 6).Draw(t, "max")
+	c.Pre = rapid.IntRange(0, c.Max).Draw(t, "pre")
+	n := rapid.IntRange(2, 8).Draw(t, "clients")
+	for i := 0; i < n; i++ {
+		m := rapid.IntRange(1, 3).Draw(t, fmt.Sprintf("c%d.n", i))
+		var ops []int
+		for j := 0; j < m; j++ {
+			ops = append(ops, rapid.SampledFrom([]int{0, 0, 0, 1}).Draw(t, fmt.Sprintf("c%d.op%d", i, j)))
+		}
+		c.Clients = append(c.Clients, ops)
+		c.Spin = append(c.Spin, rapid.SampledFrom([]int{0, 0, 10, 100, 1000}).Draw(t, fmt.Sprintf("spin%d", i)))
+	}
+	if rapid.IntRange(0, 3).Draw(t, "noise?") != 0 {
+		c.Noise = rapid.IntRange(1, 1000).Draw(t, "noise")
+	}
+	return c
+}
+
+func runC20cc(c c20ccCase) *vlib.Outcome {
+	o := &vlib.Outcome{}
+	if c.Max < 1 || c.Max > 64 || c.Pre < 0 || c.Pre > c.Max || (c.Kind != "indexed" && c.Kind != "linear") || len(c.Clients) < 2 || len(c.Clients) > 32 || len(c.Spin) < len(c.Clients) {
+		o.Discard = true
+		return o
+	}
+	w := newWorld(c.Kind, nil, o)
+	w.ctrl.MaxFacts = c.Max
+	loc, err := w.open("L")
+	if err != nil {
+		o.Fail("OPEN", "%v", err)
+		return o
+	}
+	for i := 0; i < c.Pre; i++ {
+		if _, err := loc.AddFact(newCtx(), fmt.Sprintf("pre%d", i), core.Map{"pre": fmt.Sprint(i)}); err != nil {
+			o.Fail("SETUP", "%v", err)
+			return o
+		}
+	}
+	if c.Noise > 0 {
+		_, end := startNoise(c.Noise)
+		defer end()
+		o.Label("schedule-noise")
+	}
+	type res struct {
+		id  string
+		err error
+	}
+	results := make([][]res, len(c.Clients))
+	var wg sync.WaitGroup
+	start := make(chan struct{})
+	total := 0
+	for i := range c.Clients {
+		total += len(c.Clients[i])
+		wg.Add(1)
+		go func(i int) {
+			defer wg.Done()
+			<-start
+			x := 0
+			for j := 0; j < c.Spin[i]; j++ {
+				x += j
+			}
+			_ = x
+			for j, k := range c.Clients[i] {
+				id := fmt.Sprintf("c%d.%d", i, j)
+				var err error
+				if k == 1 {
+					_, err = loc.AddRule(newCtx(), id, core.Map(mkRule(M{"a": "x"}, id)))
+				} else {
+					_, err = loc.AddFact(newCtx(), id, core.Map{"by": id})
+				}
+				results[i] = append(results[i], res{id, err})
+			}
+		}(i)
+	}
+	close(start)
+	wg.Wait()
+	room := c.Max - c.Pre
+	if total > room {
+		o.NonTrivial = true
+	}
+	when := fmt.Sprintf("[%s max=%d pre=%d] clients %v", c.Kind, c.Max, c.Pre, c.Clients)
+	size, err := loc.StateSize(newCtx())
+	if err != nil {
+		o.Fail("SIZE", "%s: %v", when, err)
+		return o
+	}
+	ok := 0
+	for i := range results {
+		for _, r := range results[i] {
+			_, gerr := loc.GetFact(newCtx(), r.id)
+			if r.err == nil {
+				ok++
+				if gerr != nil {
+					o.Fail("ACKNOWLEDGED_WRITE_MISSING", "%s: the add of %s succeeded, and afterwards: %v", when, r.id, gerr)
+					return o
+				}
+			} else if gerr == nil {
+				o.Fail("REFUSED_ADD_LEFT_TRACE", "%s: the add of %s was refused (%v), and the item is there", when, r.id, r.err)
+				return o
+			}
+		}
+	}
+	if size > c.Max || ok > room {
+		o.Fail("CAPACITY_EXCEEDED", "%s: %d of %d concurrent adds succeeded where there was room for %d; the location holds %d items, its maximum is %d", when, ok, total, room, size, c.Max)
+		return o
+	}
+	if total >= room && ok < room {
+		// (no sequential order refuses an add while there is room)
+		o.Fail("ADD_REFUSED_WITH_ROOM", "%s: only %d of %d concurrent adds succeeded although there was room for %d (the location holds %d items)", when, ok, total, room, size)
+	}
+	return o
+}
+
+func TestC20CapacityConcurrent(t *testing.T) {
+	vlib.Check(t, "C20", genC20cc, runC20cc)
+}
